@@ -60,7 +60,7 @@ func props() map[string]*propCfg {
 			Rule: "generated programs with by-name points (custom names, default names, absent names, names of incompatible type, optional and required, rare duplicate registrations); K schedules each; non-trivial = the program has a by-name point; distinct = distinct (program shape, registry path signature)."},
 		"C08": {ID: "C08", Engine: "startsim", Level: "exploration", Families: wire, QProgs: 520, QK: 8, TProgs: 480, TK: 48,
 			Rule: "generated populations with qualifier / Primary / naming attributes and holders mixing qualified, unqualified, optional and required points; K schedules each; non-trivial = some point has >= 2 candidates; distinct = distinct (program shape, registry path signature)."},
-		"C10": {ID: "C10", Engine: "startsim", Level: "exploration", Families: []famShare{{gen.FamWire, 0.5}, {gen.FamByName, 0.2}, {gen.FamSubst, 0.3}}, QProgs: 480, QK: 10, TProgs: 480, TK: 48,
+		"C10": {ID: "C10", Engine: "startsim", Level: "exploration", Families: []famShare{{gen.FamWire, 0.5}, {gen.FamByName, 0.2}, {gen.FamSubst, 0.3}}, QProgs: 720, QK: 10, TProgs: 480, TK: 48,
 			Rule: "each generated program is started under K schedules and the outcomes / wirings are compared across the sweep (metamorphic); non-trivial = some point has >= 2 candidates; distinct = distinct (program shape, registry path signature)."},
 	}
 	for _, p := range m {
